@@ -809,7 +809,8 @@ def _attach_keys(b, par):
     from spsdk.crypto.signature_provider import get_signature_provider
 
     if b.sign_key and hasattr(par, "signature_provider"):
-        par.signature_provider = get_signature_provider(local_file_key=b.cfg["signPrivateKey"])
+        par.signature_provider = (get_signature_provider(local_file_key=b.cfg["signPrivateKey"]) if "signPrivateKey" in b.cfg
+                                  else get_signature_provider(sp_cfg=b.cfg["signProvider"]))
     if "user_key" in b.opts and hasattr(par, "hmac_key") and not par.hmac_key:
         par.hmac_key = b.opts["user_key"]
 
